@@ -11,8 +11,8 @@ from ..defs_common import FAM, native_names, regen_or_report
 from ..defs_emit_common import (COQ_HEADER, DIFF_NAMES, F, build_corpus, closure_case, closure_files, closure_model_ok, coq_case,
                                 construct_classes, cross_language_check, diagnose, observation, run_emit, source_classes)
 
-THEOREMS = ["C04_tables_refuted", "C04_tables_partial", "C04_tables_sweep", "C04_tables_domain", "C04_sig", "C04_layout",
-            "C04_layout_refuted", "C04_sig_refuted", "C04_hash_forms", "C04_ex_accepted_plain"]
+THEOREMS = ["C04_tables", "C04_tables_sweep", "C04_tables_domain", "C04_sig", "C04_layout", "C04_len0_rejected",
+            "C04_hash_forms", "C04_ex_accepted"]
 OPS = ["separate", "load_py", "load_c", "load_js"]
 
 
@@ -81,7 +81,7 @@ def run(chk: Check):
     from ..translate import tables as T
     ptypes = {k: (size, T.KIND_CODE[T.FORMAT_WIDTH[fmt][1]]) for k, _, size, fmt in T.parser_supported_types()}
     allnat = list(ptypes)
-    natives = [n for n in allnat if n != "signed char"]
+    natives = list(allnat)
 
     # ---- 1. the tables themselves (finite, complete), independent of Coq
     tdiff = table_oracle()
@@ -92,7 +92,7 @@ def run(chk: Check):
     corpus = build_corpus(rng, chk.tier, natives) + extra_closures(natives)
     # failing-input search aimed at every native name (and at the changed table entry, if any)
     for t in allnat:
-        corpus.append(dict(tag="native:" + t, cl=per_type_closure(t), coq=(t != "signed char")))
+        corpus.append(dict(tag="native:" + t, cl=per_type_closure(t), coq=True))
     if chk.tier == "thorough":   # second C compiler on the per-type and systematic closures
         import shutil as _sh
         if _sh.which("clang"):
@@ -159,8 +159,6 @@ def run(chk: Check):
 
     # table disagreement (other than the recorded one) without a concrete failing definition is still reported
     for k, tb, desc in tdiff:
-        if k == "signed char":
-            continue
         chk.spec_failure(f"tables:{k.replace(' ', '_')}:{tb}", desc, dict(type=k, table=tb, yaml=closure_files(per_type_closure(k))))
 
     # ---- 3. model <-> implementation
@@ -182,7 +180,7 @@ def run(chk: Check):
         "MATLAB: no interpreter here - assignment order and literal right-hand sides only (char is stored as int8: compared as 1-byte)",
         "JavaScript carries no widths: names, order, lengths, char/not-char, ids, hashes only",
         "constant expressions in the Coq model: integer + - * over constants (// / % are exercised on the implementation only)",
-        "array lengths >= 1 and no `signed char` in the theorems (the two recorded findings)",
+        "theorems are over every accepted closure (array lengths < 1 are rejected by add_fields, modelled)",
     ]
     if bad:
         codes = diagnose(FAM, [coq_cases[b] for b in bad[:4] if b >= 0])
